@@ -91,6 +91,8 @@ def run(F, rep, tier):
     r5 = rep.rule("R08.5", "named parameter -> core argument index agrees with positional index under the specification's parameter order")
     units_rule(F, rep)
     slice_end_rule(F, rep)
+    feel_equality_rule(F, rep)
+    search_direction_rule(F, rep)
     adt = F.adts.get(BIF)
     if adt is None:
         rep.missing_anchor(r1, BIF)
@@ -390,3 +392,61 @@ def slice_end_rule(F, rep):
                 rep.violation(rid, key, "%s guards the slice at line %s with `end < len`: a result that ends at the last element is rejected (returns null inside the function's domain)"
                               % (name.split("::")[-1], s.line), "%s:%s" % (F.bodies[name]["file"], s.line))
     rep.floor(rid, "range slices guarded by their end", n, 2)
+
+
+def feel_equality_rule(F, rep):
+    """R08.8: FEEL values are compared with FEEL equality (evaluate_equals / eval_ternary_equality: numbers by value, nulls equal whatever their
+    diagnostic text, ...). Rust's derived `PartialEq for Value` compares representations; a built-in that uses it (==, !=, slice::contains, dedup,
+    HashSet / BTreeSet of Value) disagrees with `=` and with the sibling built-ins."""
+    import re
+    rid = rep.rule("R08.8", "built-ins never compare FEEL values with Rust's derived equality (==, contains, dedup on Value): membership and equality go through FEEL equality")
+    n = 0
+    bad = 0
+    for name, h in sorted(F.hir.items()):
+        if not name.startswith("dmntk_feel_evaluator::bifs::core::"):
+            continue
+        n += 1
+        for x, _ in find_hir(h["body"], lambda x: x.get("k") in ("Binary", "MethodCall", "Call") and x.get("callee")):
+            cal = x["callee"]
+            if not re.search(r"(PartialEq(<.*>)?>?::(eq|ne)$|slice::<impl \[T\]>::(contains|starts_with|ends_with)$|Vec::<.*>::(dedup|dedup_by_key)$|VecDeque::<.*>::contains$)", cal):
+                continue
+            tys = []
+            for key in ("a", "b", "recv"):
+                e = x.get(key)
+                if isinstance(e, dict) and e.get("t") is not None:
+                    tys.append(F.ty(h, e["t"]))
+                if isinstance(e, dict) and e.get("adj_t") is not None:
+                    tys.append(F.ty(h, e["adj_t"]))
+            if x.get("self_ty") is not None:
+                tys.append(F.ty(h, x["self_ty"]))
+            if any(re.search(r"dmntk_feel::values::Values?\b", t) for t in tys):
+                bad += 1
+                rep.violation(rid, "%s:derived-eq" % name.split("::")[-1], "%s compares FEEL values with Rust's derived equality (%s at line %s): nulls with different diagnostics, numbers of different scale "
+                              "inside nested values etc. compare unequal although `=` says equal" % (name.split("::")[-1], cal.split("::")[-1], x.get("l")), "%s:%s" % (h["file"], x.get("l")))
+    if not bad:
+        rep.ok(rid, "feel-equality", "%d core functions, no derived comparison of Value" % n)
+    rep.floor(rid, "core built-in functions", n, 60)
+
+
+# built-ins the specification defines on the FIRST occurrence of the match (DMN 1.3 table 71: substring before / after, contains, index of ... in list order)
+FIRST_OCCURRENCE = ("substring_before", "substring_after", "index_of", "starts_with", "contains", "split", "replace")
+BACKWARD_APIS = r"::(rfind|rsplit_once|rsplit|rsplitn|rsplit_terminator|rmatches|rmatch_indices|rposition|rfind_map|strip_suffix|trim_end_matches|next_back|last)$"
+
+
+def search_direction_rule(F, rep):
+    """R08.9: the string / list search built-ins are defined on the first occurrence; they must search forwards (find, split_once, position, ...)."""
+    import re
+    rid = rep.rule("R08.9", "first-occurrence built-ins (substring before/after, index of, ...) search forwards: no rfind / rsplit_once / rposition / next_back")
+    n = 0
+    for name, h in sorted(F.hir.items()):
+        short = name.split("::")[-1]
+        if not name.startswith("dmntk_feel_evaluator::bifs::core::") or short not in FIRST_OCCURRENCE:
+            continue
+        n += 1
+        bad = [x for x, _ in find_hir(h["body"], lambda x: x.get("k") in ("MethodCall", "Call") and re.search(BACKWARD_APIS, x.get("callee") or ""))]
+        if bad:
+            rep.violation(rid, "%s:direction" % short, "%s searches from the end (%s at line %s); the specification defines it on the first occurrence of the match"
+                          % (short, bad[0]["callee"].split("::")[-1], bad[0].get("l")), "%s:%s" % (h["file"], bad[0].get("l")))
+        else:
+            rep.ok(rid, "%s:direction" % short, "forward search only")
+    rep.floor(rid, "first-occurrence built-ins", n, 5)
